@@ -18,7 +18,7 @@ def _vmraise(exc):
 
 def wguard(s, obj, g=TRUE):
     """effective write guard for a write by state s (restricted by g) to heap object obj"""
-    gg = AND(s.guard, g)
+    gg = AND(s.guard, g, s.cg)
     if gg is obj.birth:
         return TRUE
     return gg
@@ -229,14 +229,19 @@ def _needs_expansion(k):
 def lift_key(vm, s, k, fn):
     """apply fn(concrete-ish key) over the alternatives of a key that contains Unions"""
     out = []
-    for g, kk in key_alts(k):
-        if AND(s.guard, g) is FALSE:
-            continue
-        from .vm import VMRaise
-        try:
-            out.append((g, fn(kk)))
-        except VMRaise as e:
-            vm.raise_under(s, g, e.exc)
+    cg0 = s.cg
+    from .vm import VMRaise
+    try:
+        for g, kk in key_alts(k):
+            if AND(s.guard, g) is FALSE:
+                continue
+            s.cg = AND(cg0, g)
+            try:
+                out.append((g, fn(kk)))
+            except VMRaise as e:
+                vm.raise_under(s, TRUE, e.exc)
+    finally:
+        s.cg = cg0
     return mk_union(out)
 
 
@@ -248,9 +253,9 @@ def getitem(vm, s, c, k):
         alts, missing = dict_get(vm, s, c, k)
         if missing is not FALSE and AND(s.guard, missing) is not FALSE:
             if c.default_factory is not None:
-                if vm.feasible(AND(s.guard, missing)):
+                if vm.feasible(AND(s.guard, s.cg, missing)):
                     nv = _make_default(vm, s, c)
-                    setitem(vm, s, c, k, nv, AND(s.guard, missing))
+                    setitem(vm, s, c, k, nv, AND(s.guard, s.cg, missing))
                     alts = alts + [(missing, nv)]
             else:
                 vm.raise_under(s, missing, KeyError(k if is_concrete(k) else "<sym>"))
@@ -773,10 +778,25 @@ def _list_method(vm, s, lst, name, args, kwargs):
         if remaining is not FALSE:
             vm.raise_under(s, remaining, ValueError("list.remove(x): x not in list"))
         return None
+    if name == "index" and not lst.is_plain():
+        # position = number of present slots before the first matching present slot
+        x = args[0]
+        remaining = TRUE
+        alts = []
+        before = []
+        for j, sl in enumerate(lst.slots):
+            m = AND(remaining, sl[0], eq_values(vm, s, sl[1], x))
+            if m is not FALSE:
+                pos = z3.Sum([z3.If(to_z3(p), 1, 0) for p in before]) if before else z3.IntVal(0)
+                alts.append((m, Sym("int", pos) if before else 0))
+                remaining = AND(remaining, NOT(m))
+            if sl[0] is not FALSE:
+                before.append(sl[0])
+        if remaining is not FALSE:
+            vm.raise_under(s, remaining, ValueError("x not in list"))
+        return mk_union(alts)
     if name == "index":
         x = args[0]
-        if not lst.is_plain():
-            raise Unsupported("index() on guarded list")
         remaining = TRUE
         alts = []
         for j, sl in enumerate(lst.slots):
@@ -793,7 +813,11 @@ def _list_method(vm, s, lst, name, args, kwargs):
         conds = [c for c in conds if c is not FALSE]
         if all(c is TRUE for c in conds):
             return len(conds)
-        return Sym("int", z3.Sum([z3.If(to_z3(c), 1, 0) for c in conds]))
+        n_true = sum(1 for c in conds if c is TRUE)
+        rest = [c for c in conds if c is not TRUE]
+        r = LenSym("int", z3.Sum([z3.If(to_z3(c), 1, 0) for c in rest]) + n_true)
+        r.guards = (n_true, tuple(rest))
+        return r
     if name == "__len__":
         return length(vm, s, lst)
     if name == "sort" or name == "reverse":
@@ -877,7 +901,7 @@ def _dict_method(vm, s, d, name, args, kwargs):
             raise Unsupported("setdefault with merged key")
         alts, missing = dict_get(vm, s, d, k)
         if missing is not FALSE:
-            setitem(vm, s, d, k, dv, AND(s.guard, missing))
+            setitem(vm, s, d, k, dv, AND(s.guard, s.cg, missing))
         return mk_union(alts + [(missing, dv)])
     if name == "update":
         if args:
